@@ -60,22 +60,18 @@ pub fn for_triples(ctx: &mut Ctx, u: &Universe, lk: &Likely, f: &mut dyn FnMut(&
     let quick = ctx.quick();
     let (shard, n) = (ctx.shard, ctx.nshards);
     let mut related: std::collections::HashMap<&str, Vec<(Option<&str>, Option<&str>)>> = std::collections::HashMap::new();
-    if quick {
-        for ((l, r), _) in lk.lr.iter() {
-            related.entry(l.as_str()).or_default().push((None, Some(r.as_str())));
-        }
-        for ((l, s), _) in lk.ls.iter() {
-            related.entry(l.as_str()).or_default().push((Some(s.as_str()), None));
-        }
+    for ((l, r), _) in lk.lr.iter() {
+        related.entry(l.as_str()).or_default().push((None, Some(r.as_str())));
     }
-    let und_pairs: Vec<(Option<&str>, Option<&str>)> = if quick {
+    for ((l, s), _) in lk.ls.iter() {
+        related.entry(l.as_str()).or_default().push((Some(s.as_str()), None));
+    }
+    let und_pairs: Vec<(Option<&str>, Option<&str>)> = {
         let mut v: Vec<(Option<&str>, Option<&str>)> = vec![(None, None)];
         v.extend(lk.sr.keys().map(|(s, r)| (Some(s.as_str()), Some(r.as_str()))));
         v.extend(lk.s.keys().map(|s| (Some(s.as_str()), None)));
         v.extend(lk.r.keys().map(|r| (None, Some(r.as_str()))));
         v
-    } else {
-        vec![]
     };
     let mut r = Rng::new(mix(&[ctx.seed, shard as u64, 0x7219]));
     for (li, l) in u.langs.iter().enumerate() {
@@ -110,6 +106,44 @@ pub fn for_triples(ctx: &mut Ctx, u: &Universe, lk: &Likely, f: &mut dyn FnMut(&
                 }
             }
         }
+        // History phase (both tiers): the queries are pure functions of the triple, so the answer
+        // must not depend on what was asked before. The related triples of this language (bare,
+        // every CLDR script/region of it, their cross products, unknown neighbours, and the same
+        // with `und`) are re-asked in several random orders, so that most ordered pairs
+        // (query A directly followed by query B) of related queries occur; each call is judged
+        // by the caller's oracle as usual. This is what exposes a memo / cache keyed on too little.
+        let mut seq: Vec<(bool, Option<&str>, Option<&str>)> = vec![(false, None, None), (true, None, None)];
+        if let Some(v) = related.get(l.as_str()) {
+            let scripts: Vec<Option<&str>> = v.iter().filter_map(|(s, _)| s.map(Some)).collect();
+            let regions: Vec<Option<&str>> = v.iter().filter_map(|(_, r)| r.map(Some)).collect();
+            for (s, rg) in v {
+                seq.push((false, *s, *rg));
+                seq.push((true, *s, *rg));
+            }
+            for s in scripts.iter().take(4) {
+                for rg in regions.iter().take(6) {
+                    seq.push((false, *s, *rg));
+                }
+            }
+            seq.push((false, Some("Xxxx"), None));
+            seq.push((false, None, Some("XX")));
+        } else if l == "und" {
+            for (s, rg) in und_pairs.iter() {
+                seq.push((true, *s, *rg));
+            }
+        } else {
+            seq.push((false, Some("Latn"), None));
+            seq.push((false, None, Some("US")));
+            seq.push((false, Some("Arab"), Some("PK")));
+        }
+        let passes = if quick { 4 } else { 12 };
+        for _ in 0..passes {
+            r.shuffle(&mut seq);
+            for (und, s, rg) in seq.iter() {
+                f(ctx, if *und { "und" } else { l.as_str() }, *s, *rg);
+            }
+        }
+        ctx.count_n("history-phase: related queries re-asked in random order", (passes * seq.len()) as u64);
     }
 }
 
